@@ -17,6 +17,13 @@ OBLIGATIONS = [
     "KafVerif.C24.perItem_eq_allowed_only",
     "KafVerif.C24.perItem_deny_bits",
     "KafVerif.C24.ungated_violates",
+    "KafVerif.C24.decision_depends_only_on_request",
+    "KafVerif.C24.decision_depends_only_on_request_init",
+    "KafVerif.C24.session_decisions_eq",
+    "KafVerif.C24.decision_history_independent",
+    "KafVerif.C24.session_denied_noop",
+    "KafVerif.C24.session_perItem_denied_untouched",
+    "KafVerif.C24.memoised_decisions_violate",
 ]
 BUILDS = {"b": ("root", "./cmd/broker", ["C10", "C11", "C24"])}   # C11 dir: pkg/broker export + `tables` (type name -> key)
 LEVEL_TEXT = ("Lean: obligation (decide) over the guard table REGENERATED with go/ast from handler.Handle — every dispatch "
@@ -25,7 +32,13 @@ LEVEL_TEXT = ("Lean: obligation (decide) over the guard table REGENERATED with g
               "the gate model for every effect/store/request: denied => store unchanged and 'denied' answers, per-item gates "
               "leave denied resources untouched.  Tie: generated request sequences over all 21 served request types from "
               "principals with random permission sets (incl. none), auto-create on/off, through the real handler with "
-              "in-memory store and counting S3, full per-resource snapshots before/after every request.")
+              "in-memory store and counting S3, full per-resource snapshots before/after every request.  Session model "
+              "(one handler = authorizer + denial log + denial counters, step : State -> Request -> State x Decision): for "
+              "every state and every history of earlier requests the decision of the next request is Acl.allows cfg "
+              "(principal, action, resource, name); composed with the gate: after any history a request the ACL denies changes "
+              "nothing.  Tie: multi-principal sessions on ONE handler whose principal ids / resource names contain separator "
+              "characters and are separator-joined concatenations of each other; EVERY request is judged by the independent "
+              "ACL reading (Python oracle = Lean Acl.allows = Lean session step, compared per request), in both directions.")
 TECHNIQUE = "generated-facts obligation + Lean theorems over the gate model + differential run + direct monitor on snapshots"
 ASSUMPTIONS = [
     "the authorizer's verdict is taken from the real acl.Authorizer (C23 is about Allows itself)",
@@ -35,6 +48,10 @@ ASSUMPTIONS = [
     "h.coordinator.<non-read-only>; reads: plog.Read, coordinator reads, FetchTopicConfig, NextOffset",
     "Produce acquires partition leases before the ACL check when an etcd lease manager is configured (not with the in-memory "
     "store used here); noted, owned by C19's group",
+    "no cross-request authorisation state in the handler: the session model's State carries the fields an h.allow* call and "
+    "the denial bookkeeping touch at HEAD (h.authorizer, h.authLogLast, h.authMetrics) and its step reads only the authorizer; "
+    "that the real handler keeps nothing else that influences a decision is not derived from the source but validated by the "
+    "multi-principal session stream (one handler, colliding principal/resource names, every request judged independently)",
 ]
 GEN = os.path.join(lib.LEAN, "KafVerif", "Gen", "C24Guards.lean")
 ACT = {"": 0, "ActionProduce": 1, "ActionFetch": 2, "ActionGroupRead": 3, "ActionGroupWrite": 4, "ActionGroupAdmin": 5, "ActionAdmin": 6}
@@ -56,6 +73,46 @@ REQ[103] = REQ[3]     # Metadata v12 by TopicID
 TOPICS = ["orders", "Orders", "t1", "T1", "t2", "secret"]   # names differing only in letter case are DIFFERENT resources
 GROUPS = ["g1", "G1", "g2"]
 NAME_ID = {n: i + 1 for i, n in enumerate(TOPICS + GROUPS + ["*", "x", "created-by-nobody"])}
+SEPS = ["|", ":", "/", " ", ","]      # separator characters a joined cache / log / metric key could be built with
+_PLAIN = set("abcdefghijklmnopqrstuvwxyzABCDEFGHIJKLMNOPQRSTUVWXYZ0123456789-_.*")
+
+
+def enc(name):
+    """percent-encoding of principals / names on the harness line protocol (plain names are unchanged)"""
+    return "".join(c if c in _PLAIN else "".join("%%%02X" % b for b in c.encode()) for c in name)
+
+
+def dec(s):
+    out, i = bytearray(), 0
+    b = s.encode()
+    while i < len(b):
+        if b[i] == 0x25 and i + 2 < len(b):
+            try:
+                out.append(int(b[i + 1:i + 3].decode(), 16))
+                i += 3
+                continue
+            except ValueError:
+                pass
+        out.append(b[i])
+        i += 1
+    return out.decode("utf8", "replace")
+
+
+def valid_topic_name(n):
+    """metadata.ValidTopicName"""
+    return n not in ("", ".", "..") and len(n.encode()) <= 249 and all(c in _PLAIN and c != "*" for c in n)
+
+
+def op_fields(op):
+    """(principal, key, need, names) of a `do` line, decoded"""
+    f = op.split()
+    return dec(f[1]), int(f[2]), f[3], [dec(x) for x in f[4].split(",")]
+
+
+def name_id(n):
+    if n not in NAME_ID:
+        NAME_ID[n] = 100 + len(NAME_ID)
+    return NAME_ID[n]
 
 
 def _fold(a, b):
@@ -181,8 +238,7 @@ def gen_session(rng, nops):
     acl = gen_acl(rng)
     ops = ["new %s %s" % (auto, json.dumps(acl).encode().hex())]
     # state worth protecting: records, a group with a member and a committed offset, a config
-    ops += ["do admin 19 admin:cluster t1,secret,Orders", "do admin 0 produce:topic orders,secret,t1,Orders",
-            "do admin 11 group_write:group g1", "do admin 11 group_write:group G1", "do admin 33 admin:cluster orders"]
+    ops += SETUP
     keys = sorted(REQ) + [101, 101, 1, 0]
     for _ in range(nops):
         k = rng.choice(keys)
@@ -203,12 +259,144 @@ def gen_session(rng, nops):
     return auto, ops, acl
 
 
+SETUP = ["do admin 19 admin:cluster t1,secret,Orders", "do admin 0 produce:topic orders,secret,t1,Orders",
+         "do admin 11 group_write:group g1", "do admin 11 group_write:group G1", "do admin 33 admin:cluster orders"]
+
+
+def gen_collision_session(rng, nops):
+    """ONE handler, SEVERAL principals whose ids and resource names contain separator characters and are separator-joined
+    concatenations of each other: for a rule `P <action> orders-*` the request (P, "orders-x<glue>secret") is followed /
+    preceded by (P<glue>"orders-x", "secret") — any handler-wide state keyed by a joined string (cache, log, metric key)
+    confuses the two.  Every request is judged on its own by the independent ACL reading, so a leaked ALLOW and a leaked
+    DENY both show."""
+    auto = rng.choice(["1", "0"])
+    P = rng.choice(["alice", "bob"])
+    T = rng.choice(["secret", "secret", "t1"])
+    G = rng.choice(["payments", "payments", "g1"])
+    shape = rng.below(4)
+    ta = rng.choice(["*", "*", "produce", "fetch"])
+    ga = rng.choice(["*", "*", "group_write", "group_read", "group_admin"])
+    tkeys = [k for k in (0, 0, 1, 1, 2, 23, 32, 3) if ta == "*" or REQ[k][0].startswith(ta + ":")]
+    gkeys = [k for k in (8, 9, 11, 11, 12, 13, 14, 15, 42) if ga == "*" or REQ[k][0].startswith(ga + ":")]
+    pairs = []
+    for sep in SEPS + [""]:
+        for kind in ("topic", "group"):
+            key = rng.choice(tkeys if kind == "topic" else gkeys)
+            a = REQ[key][0].split("|")[0].split(":")[0]
+            glue = rng.choice([sep, sep, sep, sep + a + sep + kind + sep, sep + kind + sep + a + sep, sep + sep]) if sep else ""
+            mid, tgt = ("orders-x", T) if kind == "topic" else ("team-x", G)
+            pairs.append((kind, key, P + glue + mid, mid + glue + tgt, tgt))
+    qs = list(dict.fromkeys(q for _, _, q, _, _ in pairs))
+    # at most 5 of the joined principals get an entry of their own (the Lean model's principal map is a closure chain
+    # whose interpreted lookup cost doubles per entry; 8 entries keep a session's `rq` lines in the millisecond range)
+    listed = list(qs)
+    for i in range(len(listed) - 1, 0, -1):
+        j = rng.below(i + 1)
+        listed[i], listed[j] = listed[j], listed[i]
+    listed = listed[:5]
+    prefix_rules = [{"action": ta, "resource": "topic", "name": "orders-*"}, {"action": ga, "resource": "group", "name": "team-*"}]
+    everything = {"action": "*", "resource": "*", "name": "*"}
+    ps = [{"name": "admin", "allow": [everything]}]
+
+    def on_target(q):
+        return [{"action": "*", "resource": "topic", "name": T}, {"action": "*", "resource": "group", "name": G}]
+    if shape == 0:      # a cached ALLOW of P would reach the rule-less principals
+        default = "deny"
+        ps.append({"name": P, "allow": prefix_rules})
+        if rng.chance(1, 2):
+            ps.append({"name": rng.choice(qs), "allow": [], "deny": []})
+    elif shape == 1:    # a cached DENY of P would reach principals the default policy allows
+        default = "allow"
+        ps.append({"name": P, "allow": [everything], "deny": prefix_rules})
+    elif shape == 2:    # a cached DENY of P would reach principals holding an explicit grant
+        default = "deny"
+        ps.append({"name": P, "allow": [{"action": "*", "resource": "topic", "name": "t2"}]})
+        for q in listed:
+            ps.append({"name": q, "allow": on_target(q)})
+    else:
+        default = rng.choice(["deny", "allow"])
+        ps.append({"name": P, "allow": prefix_rules, "deny": [{"action": "*", "resource": "*", "name": rng.choice(pairs)[3]}]})
+        for q in listed:
+            k = rng.below(4)
+            if k == 0:
+                ps.append({"name": q, "allow": on_target(q)})
+            elif k == 1:
+                ps.append({"name": q, "deny": on_target(q)})
+            elif k == 2:
+                ps.append({"name": q, "allow": [], "deny": []})
+    # principals named like resources and resources named like principals
+    ps.append({"name": "orders-x", "allow": [{"action": "fetch", "resource": "topic", "name": P}]})
+    acl = {"default_policy": default, "principals": ps}
+    ops = ["new %s %s" % (auto, json.dumps(acl).encode().hex())] + SETUP + [
+        "do admin 19 admin:cluster orders-x", "do admin 11 group_write:group payments", "do admin 8 group_write:group payments"]
+
+    def do(who, key, names):
+        return "do %s %d %s %s" % (enc(who) if who else "anonymous", key, REQ[key][0], ",".join(enc(n) for n in names))
+    order = list(range(len(pairs)))
+    for i in range(len(order) - 1, 0, -1):
+        j = rng.below(i + 1)
+        order[i], order[j] = order[j], order[i]
+    for i in order:
+        kind, key, q, longname, tgt = pairs[i]
+        k = rng.below(3)
+        if k == 0:
+            ops += [do(P, key, [longname]), do(q, key, [tgt])]
+        elif k == 1:
+            ops += [do(q, key, [tgt]), do(P, key, [longname]), do(q, key, [tgt])]
+        else:
+            ops += [do(P, key, [longname]), do(q, key, [tgt]), do(P, key, [tgt]), do(q, key, [longname])]
+    whos = [P, P, " " + P, P + " ", "nobody", "admin", "", " ", "orders-x", T, P + "*"] + qs + qs
+    tpool = [T, T, "orders-x", "t1", "orders", P] + [ln for kd, _, _, ln, _ in pairs if kd == "topic"] + qs[:3]
+    gpool = [G, G, "team-x", "g1", P] + [ln for kd, _, _, ln, _ in pairs if kd == "group"] + qs[:3]
+    keys = sorted(REQ) + [0, 1, 11, 8, 101]
+    for _ in range(nops):
+        k = rng.choice(keys)
+        need, kind, single = REQ[k]
+        who = rng.choice(whos)
+        if kind == "topic":
+            pool = [T, "orders-x", "t1", "orders", "t2"] if k in (101, 103) else tpool
+            names = [rng.choice(pool)] if (single or rng.chance(1, 2)) else list(dict.fromkeys(rng.choice(pool) for _ in range(rng.range(2, 3))))
+        elif kind == "group":
+            names = [rng.choice(gpool)] if (single or rng.chance(1, 2)) else list(dict.fromkeys(rng.choice(gpool) for _ in range(rng.range(2, 3))))
+        elif kind == "star":
+            names = ["*"]
+        else:
+            names = ["x"]
+        ops.append(do(who, k, names))
+    return auto, ops, acl
+
+
+def lean_session_lines(acl):
+    """the ACL configuration for the Lean driver's session model (cfg / pr / al / dn / open)"""
+    h = lambda x: lib.hexs(x.encode())
+    out = ["cfg " + h(acl.get("default_policy", ""))]
+    for p in acl.get("principals", []):
+        out.append("pr " + h(p["name"]))
+        for tag, rules in (("al", p.get("allow") or []), ("dn", p.get("deny") or [])):
+            for r in rules:
+                out.append("%s %s %s %s" % (tag, h(r.get("action", "")), h(r.get("resource", "")), h(r.get("name", ""))))
+    return out + ["open"]
+
+
+def lean_rq_lines(who, need, names):
+    """one `rq` per (item, alternative permission): the h.allow* calls the required permission stands for"""
+    h = lambda x: lib.hexs(x.encode())
+    out = []
+    if need == "-":
+        return out
+    for n in names:
+        for alt in need.split("|"):
+            a, r = alt.split(":")
+            out.append("rq %s %s %s %s" % (h(who), h(a), h(r), h("cluster" if r == "cluster" else n)))
+    return out
+
+
 def judge(ck, auto, op, o, acl=None):
     """Direct property monitor on one implementation line: (fingerprint, what) or None."""
     f = op.split()
     if f[0] != "do":
         return None
-    who, key, need, names = f[1], int(f[2]), f[3], f[4].split(",")
+    who, key, need, names = op_fields(op)
     byid = key >= 100
     key = key % 100
     if o.startswith("panic"):
@@ -224,11 +412,16 @@ def judge(ck, auto, op, o, acl=None):
     prefix = {"topic": "topic:", "group": "group:", "star": "group:", "none": "none:"}[REQ[key][1]]
     denied = [n for n, a in zip(names, allowed) if a == "0"]
     if not denied:
+        # the other direction: a request the ACL allows item by item is not answered with an authorization error
+        # (e.g. another principal's DENY served from handler-wide state)
+        if need != "-" and acl is not None and any(c in AUTH_CODES for c in codes):
+            return ("allowed-request-got-authorization-error",
+                    "%r holds %s on %s but request key %d answered codes %s" % (who, need, ",".join(names), key, ",".join(codes)))
         return None
     whole = all(a == "0" for a in allowed)
     # 1. nothing about a denied resource changes; if every item is denied nothing changes at all
     for n in denied:
-        if prefix + n in changed:
+        if prefix + enc(n) in changed:
             return ("denied-request-changed-state",
                     "%s lacks %s on %s but request key %d changed %s%s" % (who, need, n, key, prefix, n))
     if whole and changed:
@@ -243,8 +436,9 @@ def judge(ck, auto, op, o, acl=None):
         exists = kv["exists"].split(",")
         for n, a, c, ex in zip(names, allowed, codes, exists):
             if a == "0" and c not in AUTH_CODES:
-                if key == 3 and (ex == "1" or auto == "0" or byid):
-                    continue  # Metadata describes existing topics; the guarded effect is the auto-creation (by name) only
+                if key == 3 and (ex == "1" or auto == "0" or byid or not valid_topic_name(n)):
+                    continue  # Metadata describes existing topics; the guarded effect is the auto-creation (by name) only,
+                    #           and a name that cannot be a topic (metadata.ValidTopicName) is never auto-created
                 if byid and ex == "0":
                     continue  # unknown topic id: nothing to protect, answered UNKNOWN_TOPIC_ID
                 return "denied-item-no-authorization-error", "%s lacks %s on %s but request key %d answered code %s" % (who, need, n, key, c)
@@ -259,16 +453,20 @@ def model_ops(auto, ops, impl, acl=None):
             out.append("# " + op[:40])
             continue
         kv = dict(x.split("=", 1) for x in o.split() if "=" in x)
-        names = f[4].split(",")
-        bits = oracle_bits(acl, "" if f[1] == "anonymous" else f[1], f[3], names) if acl is not None else kv["allowed"].split(",")
+        who, key, need, names = op_fields(op)
+        bits = oracle_bits(acl, "" if who == "anonymous" else who, need, names) if acl is not None else kv["allowed"].split(",")
         exists = kv["exists"].split(",")
-        if int(f[2]) >= 100:
+        if key >= 100:
             # by-id forms: an unknown id is answered UNKNOWN_TOPIC_ID before any check; Metadata by id creates nothing
-            if int(f[2]) == 103 or "0" in exists:
+            if key == 103 or "0" in exists:
                 out.append("# " + op[:40])
                 continue
-        items = ["%d:%s:%s" % (NAME_ID.get(n, 99), a, e) for n, a, e in zip(names, bits, exists)]
-        out.append("do %d %s %s" % (int(f[2]) % 100, auto, " ".join(items)))
+        if key == 3:
+            # the Metadata gate guards the auto-creation only; a name that cannot be a topic is skipped before the gate
+            # (metadata.ValidTopicName) — sent to the model like an existing topic: nothing to create, nothing to deny
+            exists = [e if valid_topic_name(n) else "1" for n, e in zip(names, exists)]
+        items = ["%d:%s:%s" % (name_id(n), a, e) for n, a, e in zip(names, bits, exists)]
+        out.append("do %d %s %s" % (key % 100, auto, " ".join(items)))
     return out
 
 
@@ -278,16 +476,25 @@ def run(ck):
         return
     binary = st["bins"]["b"]
     nsess, nops = (25, 60) if ck.quick() else (300, 120)
+    csess, cops = (14, 30) if ck.quick() else (150, 80)
     ck.cov["rule"] = ("sessions = fresh handler + random ACL (admin, alice, bob with random allow/deny rules over topics/groups/cluster incl. "
                       "prefix/* patterns, absent principal 'nobody', anonymous; default deny or allow; auto-create on/off) + seeded state "
-                      "(records, group member, config) + random requests over all 21 served request types with 1-3 named resources.  "
-                      "Non-trivial = a request with at least one denied item; distinct = distinct (acl, op) pairs")
+                      "(records, group member, config) + random requests over all 21 served request types with 1-3 named resources; "
+                      "plus multi-principal collision sessions on ONE handler (principal ids / topic / group names with '|' ':' '/' ' ' ',' "
+                      "that are separator-joined concatenations of each other, P+long name before/after P<glue>mid + target, 4 ACL shapes), "
+                      "every request judged on its own.  Non-trivial = a request with at least one denied item; distinct = distinct (acl, op) pairs")
     all_ops, autos, acls = [], [], []
     for s in range(nsess):
         auto, ops, acl = gen_session(ck.rng.fork(), nops)
         all_ops += ops
         autos += [auto] * len(ops)
         acls += [acl] * len(ops)
+    for s in range(csess):
+        auto, ops, acl = gen_collision_session(ck.rng.fork(), cops)
+        all_ops += ops
+        autos += [auto] * len(ops)
+        acls += [acl] * len(ops)
+        ck.count("collision-session")
     fn = ck.path("ops_all.txt")
     open(fn, "w").write("\n".join(all_ops) + "\n")
     rc, out, err = ck.run_bin(binary, stdin_path=fn, env={"VERIF_HARNESS": "C24"}, timeout=600)
@@ -297,51 +504,94 @@ def run(ck):
         return
     sess_start = 0
     oracle_diffs = []
+    obits_all = [None] * len(all_ops)
     for i, (op, o) in enumerate(zip(all_ops, impl)):
         if op.startswith("new"):
             sess_start = i
             ck.cov["traces_validated_against_impl"] += 1
             continue
-        f = op.split()
-        obits = oracle_bits(acls[i], "" if f[1] == "anonymous" else f[1], f[3], f[4].split(","))
+        who, key, need, names = op_fields(op)
+        obits = oracle_bits(acls[i], "" if who == "anonymous" else who, need, names)
+        obits_all[i] = obits
         has_denied = "0" in obits
-        ck.count("key%s:%s" % (f[2], "denied" if has_denied else "allowed"))
+        ck.count("key%d:%s" % (key, "denied" if has_denied else "allowed"))
         ck.case((all_ops[sess_start], op), nontrivial=has_denied, sample={"op": op, "impl": o[:160]} if has_denied else None)
         if "allowed=" in o and o.split("allowed=")[1].split()[0].split(",") != obits:
             oracle_diffs.append((i, op, o, obits))
         m = judge(ck, autos[i], op, o, acls[i])
         if m:
-            pre = [all_ops[sess_start]] + [x for x in all_ops[sess_start + 1:i] if x.startswith("do admin")][:5]
-            ck.violation(m[0], m[1], {"ops": pre + [op], "auto": autos[i], "actual": o})
+            # the whole session up to the failing request: the outcome may depend on what other principals asked before
+            ck.violation(m[0], m[1], {"ops": all_ops[sess_start:i + 1], "auto": autos[i], "actual": o})
     if oracle_diffs and not ck.violations:
         i, op, o, obits = oracle_diffs[0]
         ck.broke("the authorizer's verdict differs from the documented ACL semantics (names exact and case-sensitive) — C23's subject",
                  "acl=%s\nop %s\nimpl : %s\noracle: %s" % (json.dumps(acls[i]), op, o, ",".join(obits)))
-    # correspondence: the gate model (granularity from the regenerated table) predicts the denied items
-    mops = []
-    for a, op, o, acl in zip(autos, all_ops, impl, acls):
-        mops += model_ops(a, [op], [o], acl)
+    # Lean: (a) the gate model (granularity from the regenerated table) predicts the denied items; (b) the session
+    # model (one AclSession.State per session, one `rq` = one h.allow* call) gives every request's decision — it must be
+    # the pure Acl.allows and the Python oracle's verdict, request by request
+    mlines, tags = [], []     # tags: None | ("gate", i) | ("rq", i)
+    for i, (a, op, o, acl) in enumerate(zip(autos, all_ops, impl, acls)):
+        if op.startswith("new"):
+            for l in lean_session_lines(acl):
+                mlines.append(l)
+                tags.append(None)
+            continue
+        who, key, need, names = op_fields(op)
+        for l in lean_rq_lines("" if who == "anonymous" else who, need, names):
+            mlines.append(l)
+            tags.append(("rq", i))
+        mo = model_ops(a, [op], [o], acl)[0]
+        if not mo.startswith("#"):
+            mlines.append(mo)
+            tags.append(("gate", i, mo))
     mfn = ck.path("mops_all.txt")
-    open(mfn, "w").write("\n".join(mops) + "\n")
+    open(mfn, "w").write("\n".join(mlines) + "\n")
     mod = ck.lean_run("C24", mfn)
-    j = 0
+    if len(mod) != len(mlines):
+        ck.broke("Lean driver did not answer every line", "%d/%d" % (len(mod), len(mlines)))
+        return
+    rq = {}
+    gate = {}
+    for tag, l, m in zip(tags, mlines, mod):
+        if tag is None:
+            if m != "ok":
+                ck.broke("Lean driver rejected a configuration line", l + " -> " + m)
+                return
+        elif tag[0] == "rq":
+            rq.setdefault(tag[1], []).append(m)
+        else:
+            gate[tag[1]] = (tag[2], m)
     sess_start = 0
-    for i, (op, o, mo) in enumerate(zip(all_ops, impl, mops)):
+    for i, (op, o) in enumerate(zip(all_ops, impl)):
         if op.startswith("new"):
             sess_start = i
-        if mo.startswith("#"):
             continue
-        m = mod[j]
-        j += 1
+        who, key, need, names = op_fields(op)
+        if need != "-":
+            nalt = len(need.split("|"))
+            ans = rq.get(i, [])
+            kvs = [dict(x.split("=", 1) for x in a.split()) if a.startswith("d=") else {} for a in ans]
+            if len(kvs) != nalt * len(names) or any("d" not in k for k in kvs):
+                ck.broke("Lean session model did not decide a request", "op %s -> %s" % (op, ans))
+                return
+            sbits = ["1" if any(k["d"] == "1" for k in kvs[j * nalt:(j + 1) * nalt]) else "0" for j in range(len(names))]
+            pure = all(k["d"] == k["pure"] for k in kvs)
+            if (not pure or sbits != obits_all[i]) and not ck.violations:
+                ck.broke("the independent readings of the ACL disagree (Lean session step / Lean Acl.allows / Python oracle)",
+                         "acl=%s\nop %s\nlean : %s\noracle: %s" % (json.dumps(acls[i]), op, ans, ",".join(obits_all[i])))
+                return
+        if i not in gate:
+            continue
+        mo, m = gate[i]
         kv = dict(x.split("=", 1) for x in o.split() if "=" in x)
         if "codes" not in kv:
             continue
         codes = kv["codes"].split(",")
-        if len(codes) != len(op.split()[4].split(",")):
+        if len(codes) != len(names):
             continue
         got = ",".join("1" if c in AUTH_CODES else "0" for c in codes)
         want = m.split()[0].split("=")[1] if m.startswith("deny=") else m
-        # code 29 also means "admin APIs disabled"; compare on denied items and wherever the model predicts a denial
+        # compare on denied items and wherever the model predicts a denial
         allowed = [x.split(":")[1] for x in mo.split()[3:]]
         bad = any((w == "1") != (g == "1") for w, g, a in zip(want.split(","), got.split(","), allowed) if a == "0" or w == "1")
         if bad and not ck.violations:
